@@ -47,7 +47,22 @@ fn gen(seed: u64) -> PlanTwin {
         m2 = model::gen_meas(&inst, rng);
     }
     let cl = rng.usize_below(20);
-    PlanTwin { ctx: Hx(rng.bytes(cl)), nonce: Hx(rng.bytes(16)), rand: Hx(rng.bytes(model::rand_len(&inst))), m1, m2, inst }
+    let rl = model::rand_len(&inst);
+    // sharding randomness: mostly random, sometimes degenerate (a stuck or low-entropy generator)
+    let rand = match rng.below(8) {
+        0 => vec![0u8; rl],
+        1 => vec![0xffu8; rl],
+        2 => {
+            let b = rng.bytes(16);
+            b.iter().cycle().take(rl).cloned().collect()
+        }
+        3 => {
+            let b = rng.bytes(32);
+            b.iter().cycle().take(rl).cloned().collect()
+        }
+        _ => rng.bytes(rl),
+    };
+    PlanTwin { ctx: Hx(rng.bytes(cl)), nonce: Hx(rng.bytes(16)), rand: Hx(rand), m1, m2, inst }
 }
 
 struct TwinVis<'a> {
